@@ -28,7 +28,7 @@ func hasSigByte(b []byte) bool {
 
 // FuzzAlias is the coverage-guided target of the thorough tier: arbitrary signature-free script
 // bytes through the `programs` oracle (caller data untouched, every step's stacks equal the
-// reference's always-fresh copies, capacity canaries intact), in the three invocation modes.
+// reference's always-fresh copies, capacity canaries intact), in the four invocation modes.
 func FuzzAlias(f *testing.F) {
 	for _, v := range vectors {
 		if hasSigByte(v.Unlock) || hasSigByte(v.Lock) || len(v.Unlock)+len(v.Lock) > 200 {
@@ -45,7 +45,7 @@ func FuzzAlias(f *testing.F) {
 			t.Skip()
 		}
 		c := Case{Prog: libexec.Prog{Unlock: unlock, Lock: lock, Flags: flags & nonSigMask,
-			Ctx: libexec.TxCtx{Version: 1, Seq: 0xffffffff, Amount: 1}, Level: "fuzz"}, Invoke: int(invoke % 3)}
+			Ctx: libexec.TxCtx{Version: 1, Seq: 0xffffffff, Amount: 1}, Level: "fuzz"}, Invoke: int(invoke % 4)}
 		m := c.Ctx.Model(c.Unlock, c.Lock)
 		if r := interp.VerifyScript(c.Unlock, c.Lock, interp.Flags(c.Flags), interp.TxChecker{Tx: m, Idx: c.Ctx.Index(), Amount: 1}, false, flim); r.BudgetHit {
 			t.Skip()
